@@ -366,4 +366,5 @@ def b64_tables(ctx, rule="B64-TABLE"):
         ctx.check(not cycle_without(f, h, body, dpush & body), rule, "decode emits something for every stored character", "", "an iteration of streamname::decode's loop can finish without "
                   "pushing anything: that character disappears from the decoded name", f.loc(), fn=f.name, key=rule + "|decode-every")
     pk = [a for b, n, a, t in cs if n.endswith("Peekable::<I>::peek")]
-    ctx.check(len(pk) == 1, rule, "decode strips one leading marker", "", "decode peeks %d times" % len(pk), f.loc(), fn=f.name)
+    nie = [a for b, n, a, t in cs if n.endswith("Peekable::<I>::next_if_eq") and "c:18496" in a[1]]
+    ctx.check((len(pk) == 1 and not nie) or (len(nie) == 1 and not pk), rule, "decode strips one leading marker", "", "decode peeks %d times / next_if_eq(marker) %d times" % (len(pk), len(nie)), f.loc(), fn=f.name)
